@@ -284,9 +284,15 @@ class Store:
         seams.install_clock(sim.clock)
         self.ledger.install()
         install_chaos()
-        import panqec.analysis as pan
-        real_Path = pan.Path
-        pan.Path = self._perm_path(real_Path)
+        import pathlib as _pathlib
+        import types as _types
+        P = self._perm_path(_pathlib.Path)
+        shim = _types.ModuleType('pathlib')
+        shim.__dict__.update(_pathlib.__dict__)
+        shim.Path = P
+        listing_undo = [
+            (seams.patch_everywhere(_pathlib.Path, P), _pathlib.Path),
+            (seams.patch_everywhere(_pathlib, shim), _pathlib)]
         gc_was = gc.isenabled()
         gc.disable()      # finalisers run at chosen points only (see C12)
         try:
@@ -321,7 +327,8 @@ class Store:
         finally:
             if gc_was:
                 gc.enable()
-            pan.Path = real_Path
+            for done, real in listing_undo:
+                seams.unpatch(done, real)
             uninstall_chaos()
             self.ledger.uninstall()
             seams.uninstall_clock()
